@@ -1,5 +1,9 @@
-// Default (weak) sink for the guarded access probes of /repo (EPH_VERIF_ACCESS): harnesses that
-// do not analyse accesses link this no-op; harness/conc.cpp provides the strong definition.
+// Default (weak) sinks for the guarded probes of /repo (EPH_VERIF_ACCESS, EPH_VERIF_EVENT): harnesses that
+// do not use them link these no-ops; harness/conc.cpp and harness/common/livetrace.cpp provide strong ones.
+namespace ephemeralnet {
+class Node;
+}
 namespace ephemeralnet::verif {
 __attribute__((weak)) void access(const char*, const char*, bool, const void*) {}
+__attribute__((weak)) void event(const char*, const Node&, const unsigned char*, long long, bool) {}
 }
